@@ -82,11 +82,12 @@ SpellUri(t, sty) == <<BT>> \o FoldLeft(LAMBDA acc, c : acc \o UriChar(c, sty), <
 (* Dates, times, date-times, coordinates.                                   *)
 (***************************************************************************)
 SpellDate(y, m, d) == Pad4(y) \o <<MINUS>> \o Pad2(m) \o <<MINUS>> \o Pad2(d)
-Frac(us, sty) ==      \* 1: shortest (none when zero); 2: always six digits; 3: shortest but at least one digit
+Frac(us, sty) ==      \* 1: shortest (none when zero); 2: always six digits; 3: shortest but at least one digit; 4: nine digits
     LET six == Pad6(us)
         trimmed == [i \in 1..Len(StripTrail([j \in 1..6 |-> six[j] - 48])) |-> six[i]]
     IN CASE sty.frac = 1 -> (IF us = 0 THEN <<>> ELSE <<DOT>> \o trimmed)
          [] sty.frac = 2 -> <<DOT>> \o six
+         [] sty.frac = 4 -> <<DOT>> \o six \o <<48, 48, 48>>       \* nine digits (any number of fraction digits is legal)
          [] OTHER -> <<DOT>> \o (IF us = 0 THEN <<48>> ELSE trimmed)
 SpellTime(h, mi, s, us, sty) == Pad2(h) \o <<COLON>> \o Pad2(mi) \o <<COLON>> \o Pad2(s) \o Frac(us, sty)
 SpellOffset(sgn, secs, sty) ==
@@ -141,7 +142,8 @@ SpellVal(v, sty, pre3) ==
       [] v[1] = 17 -> <<LC>> \o (IF sty.list = 3 /\ v[2] # <<>> THEN <<SP>> ELSE <<>>)
                        \o SpellTags(v[2], sty, pre3)
                        \o (IF sty.list = 3 /\ v[2] # <<>> THEN <<SP>> ELSE <<>>) \o <<RC>>
-      [] v[1] = 18 -> <<LTc, LTc>> \o SpellGrid(v, [sty EXCEPT !.nl = 1, !.empty = 1]) \o <<GTc, GTc>>
+      [] v[1] = 18 -> <<LTc, LTc>> \o (IF sty.ng = 2 THEN <<NL>> ELSE <<>>)     \* ng 2: the grid starts on the next line
+                      \o SpellGrid(v, [sty EXCEPT !.nl = 1, !.empty = 1]) \o <<GTc, GTc>>
 
 \* the denotation of what SpellVal writes (only the zone-less date-time style changes it)
 RECURSIVE Denotes(_, _)
@@ -176,7 +178,7 @@ SpellDoc(grids, sty) ==
 DocDenotes(grids, sty) == [i \in 1..Len(grids) |-> Denotes(grids[i], sty)]
 
 DefaultStyle == [num |-> 1, esc |-> 1, frac |-> 1, dt |-> 1, coord |-> 1, sep |-> 1, nl |-> 1, mark |-> 1,
-                 list |-> 1, empty |-> 1, gap |-> 1, fin |-> 1]
-StyleRanges == [num |-> 5, esc |-> 3, frac |-> 3, dt |-> 5, coord |-> 3, sep |-> 3, nl |-> 2, mark |-> 2,
-                list |-> 4, empty |-> 2, gap |-> 3, fin |-> 2]
+                 list |-> 1, empty |-> 1, gap |-> 1, fin |-> 1, ng |-> 1]
+StyleRanges == [num |-> 5, esc |-> 3, frac |-> 4, dt |-> 5, coord |-> 3, sep |-> 3, nl |-> 2, mark |-> 2,
+                list |-> 4, empty |-> 2, gap |-> 3, fin |-> 2, ng |-> 2]
 =============================================================================
